@@ -1887,7 +1887,7 @@ func (r stack) defaultAssertionHandler(x any) (str string) {
 			// symbol operators ... but never
 			// leave a dangling operator if the
 			// NOT stack rendered as nothing.
-			ik = foldValue(Xs.positive(cfold), ik)
+			// (ik was already case-folded by typ(), as needed)
 			str = ik + ` ` + str
 		}
 
